@@ -123,7 +123,7 @@ def run_pipeline(case, data, tmpdir, script_override=None, decisions=None, strat
     res.files = {}
     if strategy is None:
         strategy = S.Scripted(decisions) if decisions is not None else S.make(case["strategy"], case["sched_seed"], case["timeout_budget"])
-    kw = {k: v for k, v in AC.split_kwargs(case).items() if k != "analysis_window"}
+    kw = {k: v for k, v in AC.split_kwargs(case, long_names=not (case.get("sched_seed", 0) & 4)).items() if k not in ("analysis_window", "aw")}
     stdout = io.StringIO()
     holder = {}
 
@@ -155,6 +155,14 @@ def run_pipeline(case, data, tmpdir, script_override=None, decisions=None, strat
             holder["proxy"] = src
         observers = []
         holder["observers"] = observers
+        logger = None
+        if case.get("logger"):
+            import logging
+
+            logger = logging.getLogger("vf-pipeline")
+            logger.handlers[:] = [logging.NullHandler()]
+            logger.propagate = False
+            logger.setLevel(logging.INFO)
         for i, (kind, to) in enumerate(zip(case["observers"], case["observer_timeouts"])):
             if kind == "rec":
                 o = H.RecObserver(sched, f"obs{i}", timeout=to)
@@ -164,14 +172,14 @@ def run_pipeline(case, data, tmpdir, script_override=None, decisions=None, strat
                 # CommandLineWorker: the command moves the temporary wav it is given into a directory of ours
                 d = os.path.join(tmpdir, f"cmd{i}")
                 os.makedirs(d, exist_ok=True)
-                o = W.CommandLineWorker("mv {file} " + d + "/", timeout=to)
+                o = W.CommandLineWorker("mv {file} " + d + "/", timeout=to, **({"logger": logger} if logger is not None else {}))
                 o.vf_dir = d
             elif kind == "print":
                 o = W.PrintWorker("{id} {start} {end} {duration}", "%S", timeout=to)
             elif kind == "regionsaver":
                 d = os.path.join(tmpdir, f"regions{i}")
                 os.makedirs(d, exist_ok=True)
-                o = W.RegionSaverWorker(os.path.join(d, case["template"]), timeout=to)
+                o = W.RegionSaverWorker(os.path.join(d, case["template"]), timeout=to, **({"logger": logger} if logger is not None else {}))
                 o.vf_dir = d
             else:
                 p = os.path.join(tmpdir, f"joined{i}.wav")
@@ -180,14 +188,6 @@ def run_pipeline(case, data, tmpdir, script_override=None, decisions=None, strat
             o.vf_name = f"obs{i}:{kind}"
             o.vf_kind = kind
             observers.append(o)
-        logger = None
-        if case.get("logger"):
-            import logging
-
-            logger = logging.getLogger("vf-pipeline")
-            logger.handlers[:] = [logging.NullHandler()]
-            logger.propagate = False
-            logger.setLevel(logging.INFO)
         if case.get("fault_at_read") is not None:
             reader.vf_fault_at = case["fault_at_read"]
         tw = W.TokenizerWorker(src, observers, logger=logger, **kw)
